@@ -259,6 +259,7 @@ class State:
         self.objcls = {}        # objid -> class name
         self.derived = {}       # objid of a call result -> object ids passed to that call
         self.tri = {}           # local name -> subset of {'none', 'falsy', 'truthy'} it may be
+        self.log = []           # path-ordered events recorded by rule hooks (e.g. constructed tokens)
 
     def copy(self):
         s = State()
@@ -270,6 +271,7 @@ class State:
         s.objcls = dict(self.objcls)
         s.derived = dict(self.derived)
         s.tri = dict(self.tri)
+        s.log = list(self.log)
         return s
 
 
@@ -570,9 +572,13 @@ class Walker:
             idx = self.ev(st, e.slice)
             if isinstance(base, TupleVal) and isinstance(idx, Lin) and idx.is_const() and 0 <= idx.c < len(base.items):
                 return base.items[idx.c]
-            ik = idx.key() if isinstance(idx, Lin) else (idx.key() if isinstance(idx, SStr) else repr(idx))
+            ik = as_lin(idx).key() if isinstance(idx, (Lin, Unk)) else (idx.key() if isinstance(idx, SStr) else repr(idx))
             bid = as_obj(base).id if not isinstance(base, (SStr, Lin, TupleVal)) else ('val', repr(base))
-            return Unk(('item', bid, ik))
+            item = Unk(('item', bid, ik))
+            bc = st.objcls.get(bid)
+            if bc and bc.startswith('List['):
+                st.objcls[item.id] = bc[5:-1]
+            return item
         if isinstance(e, ast.Call):
             return self.call(st, e)
         if isinstance(e, ast.Tuple):
@@ -596,6 +602,11 @@ class Walker:
             return Unk(fresh('dict'))
         if isinstance(e, ast.Starred):
             return self.ev(st, e.value)
+        if isinstance(e, (ast.Yield, ast.YieldFrom, ast.Await)):
+            v = self.ev(st, e.value) if e.value is not None else Unk(fresh('yield'))
+            if isinstance(v, (ObjRef, Unk)):
+                self.checkpoint(st, as_obj(v).id, e, 'yield')
+            return Unk(fresh('yielded'))
         return Unk(fresh(type(e).__name__))
 
     def escape(self, st, v, node):
@@ -689,7 +700,11 @@ class Walker:
             return s          # text of an entity is compared modulo outer whitespace
         return SStr('base', id=('strip', s.key()))
 
+    on_construct = None
+
     def construct(self, st, cname, argv, kwv, node):
+        if self.on_construct is not None:
+            self.on_construct(self, st, cname, argv, kwv, node)
         oid = fresh(cname)
         st.fresh_objs.add(oid)
         st.objcls[oid] = cname
